@@ -6,10 +6,19 @@ import cont
 
 MODEL_TARGETS = ["model/Container.vo"]
 COQ_TARGETS = ["props/C17.vo"]
-THEOREMS = [("C17", [])]
-PROOF_FILES = ["props/C17.v"]
-TRUSTED_BASE = []
-ASSUMPTIONS = []
+THEOREMS = [("C17", ["C17_truncation_general", "C17_truncation_prefix", "C17_sync", "C17_data_left_in_block", "C17_count_too_small",
+                     "C17_size_beyond_input", "C17_short_block", "C17_once", "C17_eof_sticky"])]
+PROOF_FILES = ["proofs/ContainerReadProofs.v", "proofs/ContainerProofs.v", "props/C17.v"]
+TRUSTED_BASE = [
+    "Coq 8.16.1 kernel; no axioms (Print Assumptions: closed)",
+    "hand-written model/Container.v of reader/mod.rs + de/read/take.rs (NotInBlock / InBlock / Broken, per-block limit, sync check, error once then end of stream), null codec; tied by the correspondence run (item sequences of successive deserialize_next calls on damaged files, slice and chunked readers)",
+    "decompression (reader/decompression.rs), the end-of-compressed-block check and the snappy CRC are OUTSIDE the model: decided on the crate for all codecs",
+]
+ASSUMPTIONS = [
+    "proved (slice reader, null codec): truncation at ANY offset of ANY byte string yields the same items as the longer input until it stops (C17_truncation_general), for written files a prefix of the written values then only error/end (C17_truncation_prefix); sync mismatch, data left in block, size beyond input, count too small are errors; an unrecoverable error is reported once, then end of stream (C17_once)",
+    "'count larger than the contents' is an error only when the missing datums cannot be decoded from nothing: with a schema whose values are empty (null) any count is accepted by construction of the format (count_too_large_null_schema_accepted)",
+    "cuts inside the header, the chunked reader on damaged files and every compressed codec are decided on the crate: every truncation offset, single-byte corruptions of count / size / sync / CRC / payload, I/O errors",
+]
 
 def items_key(items, upto_first_err=True):
     out = []
